@@ -832,6 +832,15 @@ func verifyAuthenticTimestamp(ctx context.Context, policyName string, trustStore
 // revocationFinalResult returns the final revocation result and problematic
 // certificate subject if the final result is not ResultOK
 func revocationFinalResult(certResults []*revocationresult.CertRevocationResult, certChain []*x509.Certificate, logger log.Logger) (revocationresult.Result, string) {
+	if len(certResults) != len(certChain) {
+		// the validator must report on every certificate of the chain;
+		// anything else cannot be interpreted as OK
+		var subject string
+		if len(certChain) > 0 {
+			subject = certChain[0].Subject.String()
+		}
+		return revocationresult.ResultUnknown, subject
+	}
 	finalResult := revocationresult.ResultUnknown
 	numOKResults := 0
 	var problematicCertSubject string
